@@ -62,8 +62,14 @@ class ECBinding(CryptographyBinding):
         return raw_key
 
     @classmethod
+    def _get_curve(cls, obj: ECDictKey) -> EllipticCurve:
+        if obj["crv"] not in cls._dss_curves:
+            raise ValueError('Invalid crv value: "{}"'.format(obj["crv"]))
+        return cls._dss_curves[obj["crv"]]()
+
+    @classmethod
     def import_private_key(cls, obj: ECDictKey) -> EllipticCurvePrivateKey:
-        curve = cls._dss_curves[obj["crv"]]()
+        curve = cls._get_curve(obj)
         public_numbers = EllipticCurvePublicNumbers(
             base64_to_int(obj["x"]),
             base64_to_int(obj["y"]),
@@ -85,7 +91,7 @@ class ECBinding(CryptographyBinding):
 
     @classmethod
     def import_public_key(cls, obj: ECDictKey) -> EllipticCurvePublicKey:
-        curve = cls._dss_curves[obj["crv"]]()
+        curve = cls._get_curve(obj)
         public_numbers = EllipticCurvePublicNumbers(
             base64_to_int(obj["x"]),
             base64_to_int(obj["y"]),
